@@ -1347,6 +1347,8 @@ func genC02(c *Ctx) {
 	g.ppkCommentBlanks()
 	g.labelMismatch()
 	g.hostPatterns()
+	g.opaquePrivate()
+	g.ecOptionalComponents()
 	g.cryptoKeys()
 	g.certKeys()
 	g.pgpKeys()
